@@ -156,6 +156,7 @@ def runN (st : AslModel.ArrN.NSt) (ts : List String) : AslModel.ArrN.NSt × Stri
     | none => (st, "bad-op")
     | some op =>
       let (st', done) := AslModel.ArrN.step st (AslModel.ArrN.normOp op)
+      if !AslModel.ArrN.consistent st' then (st', "model-inconsistent-refcounts") else
       (st', (if done then "ok" else "skip") ++ " | " ++ AslModel.ArrN.showState st')
 
 def contIdx : Char → Option Nat
